@@ -38,6 +38,10 @@ Case kinds (each replayable through execute):
          exon_id); one block per stored block feature
   bed12  (case["reach"]) transcripts whose exons span them exactly while CDS / UTR records reach past the transcript's
          start, end or both: thickStart/thickEnd from the thick features; with the thin choice the other ten fields
+  bed12  (case["nest"]) transcripts whose block features overlap or lie inside one another (all block starts distinct): an
+         enclosing first block, an earlier block reaching the transcript end, overlapping chains, a block inside an
+         earlier one, CDS listed among the block types next to the exons holding them: one block per block feature in
+         ascending order of start; ValueError when the last of them does not end at the transcript end
   bed12  GFF3 / GTF database of transcripts with 0-6 exons, 0-4 CDS, UTRs; the real FeatureDB.bed12 (id and Feature,
          block/thick/thin/name_field/color choices) and convert.to_bed12 vs the field model in gvmon/models/c18.py
 """
@@ -76,11 +80,17 @@ RULE = ("seq: references of 2-4 sequences of 1-3000 bases over ACGTN + IUPAC amb
         "alt: the bed12 cases in GFF3 with, per transcript, children recorded on ANOTHER seqid (5 alternate names): the first "
         "block, the last block, an inner block, the first / last CDS, a random subset, all children, or one further block "
         "feature past the transcript's end / before its start, same calls; "
+        "overlapping blocks: 1-3 transcripts (GFF3 70% / GTF), 2-5 exons of >= 4 bases in a chain, then one of {first block "
+        "stretched over the whole transcript, an earlier block stretched to (past) the end of the last, consecutive blocks "
+        "started inside their predecessor, an extra block inside a non-last one, block types exon+CDS with a CDS strictly "
+        "after the start of each exon of a run up to the last exon, the last CDS ending inside / with the last exon}, block "
+        "starts pairwise distinct; 1-2 calls each by id / Feature; "
         "stale: a GFF3 bed12 case, one transcript, 1-2 calls; the transcript record replaced through update(merge_strategy="
         "'replace') with another extent (45% exactly the exons' span, else off by 1 / 2 / 50 on one end, widened, or random) "
         "and 50% another score, on a memory or file database; a Feature fetched BEFORE (25% through a second handle on the "
         "file opened before the replace) or a fetched Feature whose start/end the caller assigns (25%, database untouched); "
         "bed12 by id, by a fresh copy, by id through the older handle are judged, the call with the stale object is counted")
+NEST = "bed12 overlapping blocks: "
 REQUIRED = ["len(feature) checked", "sequence() by other spellings of the path compared", "sequence() by path compared", "sequence() by pyfaidx.Fasta object compared",
             "sequence() minus strand reverse-complemented", "sequence() minus strand with use_strand=False",
             "sequence(): features from a database", "bed12 calls by id", "bed12 calls by Feature", "bed12 lines compared",
@@ -162,6 +172,13 @@ REQUIRED = ["len(feature) checked", "sequence() by other spellings of the path c
             "bed12 other-seqid children: ValueError expected and raised with a block feature on another seqid",
             "bed12 other-seqid children: ValueError expected and raised while the blocks on the transcript's own seqid alone would span it",
             "bed12 other-seqid children: to_bed12 lines compared",
+            NEST + "calls by id judged", NEST + "calls by Feature judged", NEST + "calls judged, fmt=gff3",
+            NEST + "calls judged, fmt=gtf", NEST + "ValueError expected and raised",
+            NEST + "ValueError expected and raised while an earlier block reaches the transcript end and the last "
+                   "block in ascending order ends before it",
+            NEST + "lines compared (one block per block feature, last block ending at chromEnd)",
+            NEST + "lines compared with a block lying inside an earlier one",
+            NEST + "lines compared with blocks of two featuretypes",
             "bed12 stale objects: records replaced with other coordinates through update(merge_strategy='replace')",
             "bed12 stale objects: objects fetched through a handle opened before the replace",
             "bed12 stale objects: objects edited by the caller (start/end assigned)",
@@ -183,12 +200,21 @@ REQUIRED_CLASSES = ["bed12 substring names layout=flat", "bed12 substring names 
                     "bed12 look-alike types: spanning", "bed12 look-alike types: look-alike at the boundary",
                     "bed12 children on another seqid", "bed12 other seqid: first block", "bed12 other seqid: last block",
                     "bed12 other seqid: thick first", "bed12 other seqid: beyond", "bed12 other seqid: all",
-                    "bed12 stale object: replace", "bed12 stale object: older_handle", "bed12 stale object: edited",
+                    "bed12 overlapping blocks fmt=gff3", "bed12 overlapping blocks fmt=gtf"]
+REQUIRED_CLASSES += ["bed12 overlapping blocks: " + x for x in (
+    "enclosing first block", "earlier block reaches the end", "chain overlapping, last reaches the end",
+    "block inside an earlier one, last reaches the end", "CDS among the blocks, last CDS ends inside the last exon",
+    "CDS among the blocks, last CDS ends with the last exon")]
+REQUIRED_CLASSES += ["bed12 stale object: replace", "bed12 stale object: older_handle", "bed12 stale object: edited",
                     "seqobj as_raw=True", "seqobj as_raw=False", "single block by id", "bed12 fmt=gff3", "bed12 fmt=gtf", "blocks=0", "blocks=1", "blocks>=2", "non-spanning", "strand -", "strand +"]
 ASSUMPTIONS = [
     "'ascending order' = by start; children selected as blocks or thick features share a start only when they also share "
     "the end (duplicated records: interchangeable in every field, 'one block per block feature' gives each its own "
-    "entry); otherwise they never share a start (tie order is not stated) and are disjoint or abutting",
+    "entry); otherwise they never share a start (tie order is not stated) and are disjoint or abutting - except in the "
+    "'overlapping blocks' class, where block features overlap or lie inside one another with all starts distinct: the "
+    "statement's 'one block per block feature in ascending order ... last block ending at chromEnd' then names one order "
+    "and one last block; when that last block (greatest start) ends before the transcript end no line can satisfy the "
+    "statement, so ValueError is expected even though an earlier block reaches the end; convert.to_bed12 is not asked there",
     "thick features may lie outside the transcript (a CDS / UTR record reaching past its start or end): thickStart = "
     "start-1 of the first, thickEnd = end of the last thick feature as stated, whatever the transcript's extent; a stop "
     "codon selected together with the CDS ends where the CDS ends",
@@ -733,6 +759,8 @@ def one_call(ctx, case, db, ci, c):
             alt_counters(ctx, t, c, None)
         if case.get("sub"):
             ctx.mon("bed12 substring names: ValueError expected and raised")
+        if case.get("nest"):
+            nest_counters(ctx, fmt, t, c, exp)
         return None
     if raised is not None:
         if exp["single"] and c["as"] == "id":
@@ -810,6 +838,8 @@ def one_call(ctx, case, db, ci, c):
         ctx.mon("bed12 thickStart/thickEnd judged")
     if case.get("alt"):
         alt_counters(ctx, t, c, exp)
+    if case.get("nest") and not why:
+        nest_counters(ctx, fmt, t, c, exp)
     blocks_sel = M.select(t["children"], c["block"])
     thick_sel = M.select(t["children"], c["thick"])
     spans = bool(blocks_sel) and blocks_sel[0]["start"] == t["start"] and blocks_sel[-1]["end"] == t["end"]
@@ -1020,6 +1050,116 @@ def run_stale(ctx, case):
                     os.unlink(p)
 
 
+# ---------------------------------------------------------------------------------
+# bed12 for transcripts whose block features overlap / lie inside one another
+# ---------------------------------------------------------------------------------
+NEST_SHAPES = ["enclosing first block", "earlier block reaches the end", "chain overlapping, last reaches the end",
+               "block inside an earlier one, last reaches the end", "CDS among the blocks, last CDS ends inside the last exon",
+               "CDS among the blocks, last CDS ends with the last exon"]
+
+
+def nest_transcript(rng, idx, fmt):
+    """One transcript whose block features overlap or lie inside one another, all block starts distinct (so 'ascending
+    order' names one order).  The shape only steers the generator; what a call must give is worked out by the model from
+    the statement: one block per block feature in ascending order, the LAST of them ending at chromEnd, else ValueError."""
+    strand = rng.choice(["+", "-"])
+    shape = rng.choice(NEST_SHAPES)
+    pos = rng.randrange(1, 3000)
+    k = rng.randrange(2, 6)
+    chain = []                      # an ordinary chain of blocks, each >= 4 long
+    for _ in range(k):
+        ln = rng.choice([4, 5, rng.randrange(4, 200), rng.randrange(4, 200)])
+        chain.append([pos, pos + ln - 1])
+        pos += ln + rng.choice([0, 1, 2, rng.randrange(1, 300)])
+    blocks = [list(b) for b in chain]
+    cds = []
+    block = rng.choice([["exon"], "exon"])
+    if shape == "enclosing first block":
+        # the first block covers the whole transcript (mostly ending after every other block)
+        blocks[0][1] = chain[-1][1] + rng.choice([0, 1, 1, 2, 50])
+    elif shape == "earlier block reaches the end":
+        j = rng.randrange(0, k - 1)
+        blocks[j][1] = chain[-1][1] + rng.choice([1, 1, 2, 50])
+    elif shape == "chain overlapping, last reaches the end":
+        moved = False
+        for i in range(1, k):
+            if rng.random() < 0.6 or (i == k - 1 and not moved):
+                blocks[i][0] = rng.randrange(blocks[i - 1][0] + 1, blocks[i - 1][1] + 1)
+                moved = True
+    elif shape == "block inside an earlier one, last reaches the end":
+        s, e = chain[rng.randrange(0, k - 1)]
+        ns = rng.randrange(s + 1, e + 1)
+        blocks.append([ns, rng.randrange(ns, e + 1)])
+    else:
+        # CDS features among the blocks: one inside each exon of a run that includes the last exon, starting after the
+        # exon's start
+        block = rng.choice([["exon", "CDS"], ["CDS", "exon"]])
+        for s, e in chain[rng.randrange(0, k):]:
+            cs = rng.randrange(s + 1, e)
+            cds.append([cs, rng.randrange(cs, e)])
+        if shape.endswith("ends with the last exon"):
+            cds[-1][1] = chain[-1][1]
+    children = [{"type": "exon", "start": s, "end": e} for s, e in blocks]
+    thick = ["CDS"]
+    if cds:
+        children += [{"type": "CDS", "start": s, "end": e} for s, e in cds]
+    elif rng.random() < 0.5:
+        s, e = blocks[0]
+        cs = rng.randrange(s, e + 1)
+        children.append({"type": "CDS", "start": cs, "end": rng.randrange(cs, e + 1)})
+    else:
+        thick = rng.choice([["absent_type"], "CDS"])
+    rng.shuffle(children)
+    tid = "t%d" % idx
+    if fmt == "gff3":
+        attrs = [["ID", [tid]], ["Parent", ["g%d" % idx]]]
+        if rng.random() < 0.5:
+            attrs.append(["Name", ["nm%d" % idx]])
+    else:
+        attrs = [["transcript_id", [tid]], ["gene_id", ["g%d" % idx]]]
+    t = {"id": tid, "seqid": "chr1", "strand": strand, "start": min(b[0] for b in blocks), "end": max(b[1] for b in blocks),
+         "score": rng.choice([".", ".", "7"]) if fmt == "gff3" else ".", "type": "mRNA" if fmt == "gff3" else "transcript",
+         "attrs": attrs, "children": children, "shape": "spanning", "nest": shape}
+    return t, block, thick
+
+
+def nest_case(rng):
+    fmt = "gtf" if rng.random() < 0.3 else "gff3"
+    ts, calls = [], []
+    for i in range(rng.randrange(1, 4)):
+        t, block, thick = nest_transcript(rng, i, fmt)
+        ts.append(t)
+        given = ["id", "feature"]
+        rng.shuffle(given)
+        for how in given[:rng.randrange(1, 3)]:
+            calls.append({"t": i, "as": how, "block": block, "thick": thick, "thin": None,
+                          "name_field": rng.choice(["ID", "Name"] if fmt == "gff3" else ["transcript_id", "gene_id"]),
+                          "color": rng.choice([None, "255,0,0"]), "to_bed12": False})
+    return {"kind": "bed12", "fmt": fmt, "transcripts": ts, "calls": calls, "nest": True,
+            "shuffle_seed": rng.randrange(1 << 30) if rng.random() < 0.3 else None}
+
+
+def nest_counters(ctx, fmt, t, c, exp):
+    """What a call saw of overlapping block features (counted from the model's view of the selection)."""
+    sel = M.select(t["children"], c["block"])
+    if not M.overlapping(t["children"], c["block"]):
+        return
+    ctx.mon(NEST + "calls by %s judged" % ("id" if c["as"] == "id" else "Feature"))
+    earlier_reaches = any(x["end"] == t["end"] for x in sel[:-1])
+    if "raises" in exp:
+        ctx.mon(NEST + "ValueError expected and raised")
+        if earlier_reaches and sel[0]["start"] == t["start"] and sel[-1]["end"] < t["end"]:
+            ctx.mon(NEST + "ValueError expected and raised while an earlier block reaches the transcript end and the last "
+                           "block in ascending order ends before it")
+    else:
+        ctx.mon(NEST + "lines compared (one block per block feature, last block ending at chromEnd)")
+        if any(a["end"] >= b["end"] for a, b in zip(sel, sel[1:])):
+            ctx.mon(NEST + "lines compared with a block lying inside an earlier one")
+        if len(set(x["type"] for x in sel)) > 1:
+            ctx.mon(NEST + "lines compared with blocks of two featuretypes")
+    ctx.mon(NEST + "calls judged, fmt=" + fmt)
+
+
 def case_classes(case):
     """(classes, nontrivial) from the model's own view of the calls."""
     out = set(["bed12 fmt=" + case["fmt"]])
@@ -1128,6 +1268,14 @@ def run(ctx):
         for t in case["transcripts"]:
             for k in t.get("alt", []):
                 ctx.classes["bed12 other seqid: " + k] += 1
+    # 2d'. block features that overlap / lie inside one another (block starts distinct)
+    for _ in range(ctx.budget(600, 20000)):
+        case = nest_case(rng)
+        execute(ctx, case)
+        ctx.case(case, True, sample={"calls": case["calls"][:1], "text": annotation_text(case)[:600]} if rng.random() < 0.02 else None,
+                 cls="bed12 overlapping blocks fmt=" + case["fmt"])
+        for t in case["transcripts"]:
+            ctx.classes["bed12 overlapping blocks: " + t["nest"]] += 1
     # 2e. Feature objects that are not a fresh copy of the database record
     for _ in range(ctx.budget(500, 16000)):
         case = G.stale_case(rng)
@@ -1185,6 +1333,8 @@ MANIFEST = {
             "key_function / split_char / read_long_names / as_raw are passed to sequence(). "
             "bed12 is also asked for transcripts whose block / thick children are recorded on another seqid, and - by id, by "
             "a fresh copy and through an older handle - after the transcript record was replaced with other coordinates. "
+            "bed12 is asked for transcripts whose block features overlap or lie inside one another (distinct starts): "
+            "ValueError unless the block with the greatest start ends at the transcript end. "
             "Held = no executed case disagreed.",
     "note": "Trusted: the 60-line field model, pyfaidx as file reader. Not judged: bed12 given a Feature object that "
             "disagrees with the database record (stale / edited; counted by reading), thickStart/thickEnd without thick "
